@@ -94,7 +94,7 @@ def gen_matrix(rng, m, n, mode, tags, maxp=22):
         j, k = rng.sample(range(n), 2)
         W[:, j] = W[:, k]
         tags.add("dup_col")
-    if mode == "float" and rng.random() < 0.25 and n > 1:
+    if mode == "float" and rng.random() < 0.25 and n > 1 and m > 0:
         # nearly dependent columns (ill-conditioned, singular value ~ 2^-p of the largest)
         j, k = rng.sample(range(n), 2)
         p = rng.randint(8, maxp)
@@ -150,6 +150,48 @@ def gen_laplacian(rng, n, mode, tags):
     return L
 
 
+def shape_for(rng, m, n, kind, tags):
+    """empty containers as a regular class: no observations (m = 0) for every entry point, no cells (n = 0) except for
+    NNLS (scipy.optimize.nnls aborts the interpreter with 'double free' on a system without columns: third party)"""
+    r = rng.random()
+    if r < 0.03:
+        m = 0
+        tags.add("no_rows")
+    elif r < 0.06 and kind != "nnls":
+        n = 0
+        tags.add("no_columns")
+    return m, n
+
+
+def negative_zeros(rng, a, tags):
+    """-0.0 is a valid zero: it must behave like 0.0 in every guard (density > 0, ray length == 0, x < 0)"""
+    if isinstance(a, np.ndarray) and a.size and rng.random() < 0.15:
+        z = (a == 0) & (np.array([rng.random() < 0.5 for _ in range(a.size)]).reshape(a.shape))
+        if z.any():
+            a = a.copy()
+            a[z] = -0.0
+            tags.add("negative_zero")
+    return a
+
+
+def apply_scale(rng, case):
+    """scale covariance: W and b multiplied by powers of two over many decades (2^-200 .. 2^200 = 1e-60 .. 1e60);
+    the model is fed the scaled values"""
+    if rng.random() >= 0.3:
+        return
+    kW = rng.randint(-200, 200)
+    kb = kW if rng.random() < 0.3 else rng.randint(-200, 200)
+    case["W"] = case["W"] * 2.0 ** kW
+    case["b"] = case["b"] * 2.0 ** kb
+    g = case.get("guess")
+    if g is not None and rng.random() < 0.6:
+        case["guess"] = g * 2.0 ** (kb - kW)
+    if "alpha" in case and rng.random() < 0.5:
+        case["alpha"] = case["alpha"] * 2.0 ** kW
+    case["tags"].add("scaled")
+    case["scale"] = [kW, kb]
+
+
 def gen_guess(rng, n, mode, tags):
     r = rng.random()
     if r < 0.2:
@@ -181,15 +223,20 @@ def gen_sart_case(rng, mode, big, constrained):
         m, n = rng.randint(1, 7), rng.randint(1, 9)
     else:
         m, n = rng.randint(1, 4), rng.randint(1, 5)
-    W = gen_matrix(rng, m, n, mode, tags)
+    m, n = shape_for(rng, m, n, "csart" if constrained else "sart", tags)
+    W = negative_zeros(rng, gen_matrix(rng, m, n, mode, tags), tags)
     b = gen_measurement(rng, W, mode, tags)
     if rng.random() < 0.04:
         b = np.zeros(m)
         tags.add("zero_measurement")
-    g = gen_guess(rng, n, mode, tags)
+    b = negative_zeros(rng, b, tags)
+    g = negative_zeros(rng, gen_guess(rng, n, mode, tags), tags)
     relax = 1.0 if rng.random() < 0.25 else dyadic(rng, 0.1, 1.9, 4)
     tol = rng.choice([1.0E-4, 1.0E-4, 2.0 ** -6, 2.0 ** -10, 0.0, 0.5, 8.0])
     maxit = rng.choice([0, 1, 2, 3, -1] if large else ([0, 1, 2, 3, 4, 6] + ([9, 14] if big else []) + [-1]))
+    if big and not large and tol in (2.0 ** -6, 0.5, 8.0) and rng.random() < 0.25:
+        maxit = 250                      # the documented default (left out of the call in the 'defaults' style)
+        tags.add("default_max_iterations")
     case = {"kind": "csart" if constrained else "sart", "mode": mode, "m": m, "n": n, "W": W, "b": b, "guess": g,
             "relax": relax, "tol": tol, "maxit": maxit, "tags": tags, "big": big, "large": large}
     if constrained:
@@ -197,12 +244,13 @@ def gen_sart_case(rng, mode, big, constrained):
         case["beta"] = rng.choice([0.0, 0.01, dyadic(rng, 0, 0.25, 6), dyadic(rng, 0, 0.25, 6), 1.0])
         if case["beta"] == 0.0:
             tags.add("beta_zero")
+    apply_scale(rng, case)
     return case
 
 
 def gen_lsq_case(rng, mode, kind):
     tags = set()
-    m, n = rng.randint(1, 10), rng.randint(1, 12)
+    m, n = shape_for(rng, rng.randint(1, 10), rng.randint(1, 12), kind, tags)
     # invert_svd forms the explicit pseudo-inverse, which loses eps x cond(W): condition numbers kept <= ~1e5 there
     W = gen_matrix(rng, m, n, mode, tags, maxp=16 if kind == "svd" else 22)
     b = gen_measurement(rng, W, mode, tags)
@@ -217,7 +265,10 @@ def gen_lsq_case(rng, mode, kind):
         L = gen_laplacian(rng, n, mode, tags)
     if alpha == 0.0:
         tags.add("alpha_zero")
-    return {"kind": kind, "mode": mode, "m": m, "n": n, "W": W, "b": b, "alpha": alpha, "L": L, "tags": tags}
+    case = {"kind": kind, "mode": mode, "m": m, "n": n, "W": negative_zeros(rng, W, tags), "b": negative_zeros(rng, b, tags),
+            "alpha": alpha, "L": L, "tags": tags}
+    apply_scale(rng, case)
+    return case
 
 
 # ---------------------------------------------------------------------------------------------
@@ -226,24 +277,29 @@ def gen_lsq_case(rng, mode, kind):
 _VARIANT = [0]
 
 
-def run_sart_impl(inv, case, maxit=None):
+def run_sart_impl(inv, case, maxit=None, live=None):
     """returns ("ok", x, convs), ("zerodiv", None, None) or ("exception:<Type>: <text>", None, None).
     Fresh objects in the case's forms are built for every call (the implementation updates the initial guess
-    in place)."""
+    in place) unless `live` objects are handed in (histories on the same objects)."""
     _VARIANT[0] += 1
-    a = F.presented_args(case, _VARIANT[0])
+    a = live if live is not None else F.presented_args(case, _VARIANT[0])
     mi = case["maxit"] if maxit is None else maxit
-    mi = F.present_scalar(mi, case.get("forms", {}).get("maxit", "SPyInt"))
+    mi_obj = F.present_scalar(mi, case.get("forms", {}).get("maxit", "SPyInt"))
+    constrained = case["kind"] == "csart"
+    mod = inv.sart if case.get("via_module") else inv
+    fn = mod.invert_constrained_sart if constrained else mod.invert_sart
+    names = (["geometry_matrix"] + (["laplacian_matrix"] if constrained else []) + ["measurement_vector", "initial_guess",
+             "max_iterations", "relaxation"] + (["beta_laplace"] if constrained else []) + ["conv_tol"])
+    values = {"geometry_matrix": a["W"], "laplacian_matrix": a.get("L"), "measurement_vector": a["b"],
+              "initial_guess": a["guess"], "max_iterations": mi_obj, "relaxation": a["relax"],
+              "beta_laplace": a.get("beta"), "conv_tol": a["tol"]}
+    plain = {"initial_guess": case["guess"], "max_iterations": mi, "relaxation": case["relax"],
+             "beta_laplace": case.get("beta"), "conv_tol": case["tol"]}
     with warnings.catch_warnings():
         warnings.simplefilter("ignore")
         try:
-            if case["kind"] == "sart":
-                x, cs = inv.invert_sart(a["W"], a["b"], initial_guess=a["guess"], max_iterations=mi,
-                                        relaxation=a["relax"], conv_tol=a["tol"])
-            else:
-                x, cs = inv.invert_constrained_sart(a["W"], a["L"], a["b"], initial_guess=a["guess"],
-                                                    max_iterations=mi, relaxation=a["relax"],
-                                                    beta_laplace=a["beta"], conv_tol=a["tol"])
+            x, cs = F.call_with_style(fn, case.get("call", "mixed"), names, values, 3 if constrained else 2,
+                                      F.SART_DEFAULTS, plain)
         except ZeroDivisionError:
             return "zerodiv", None, None
         except Exception as ex:            # not swallowed: compared with the policy table, reported with its input
@@ -266,6 +322,67 @@ def sart_trace_impl(inv, case):
     if len(cs) > 0:
         xs.append(x)
     return st, xs, cs
+
+
+def sart_history(inv, case, rng):
+    """HISTORY ON LIVE OBJECTS: the same W, b, L objects (and the array the function returned) are used for three
+    successive runs; between the runs W or b is changed IN PLACE so that a guard is crossed (a cell / ray loses all its
+    weight: density > 0 -> 0, ray length -> 0; b -> 0) and then restored.  Every step becomes a derived case with the
+    configuration current at that step: it is run again on freshly built objects (must agree bit for bit with the live
+    result) and goes through the same Coq tie."""
+    live = F.presented_args(case, 0)
+    W0 = case["W"].copy()
+    b0 = case["b"].copy()
+    m, n = case["m"], case["n"]
+    options = ["none"]
+    if isinstance(live["W"], np.ndarray) and live["W"].flags.writeable and m > 0 and n > 0:
+        options += ["zero_col", "zero_row", "zero_col", "zero_row"]
+    if isinstance(live["b"], np.ndarray) and live["b"].flags.writeable and m > 0:
+        options += ["zero_b"]
+    mutation = rng.choice(options)
+    idx = rng.randrange(max(n if mutation == "zero_col" else m, 1))
+    derived = []
+    guess_obj = live["guess"]
+    guess_val = case["guess"]
+    for step in range(3):
+        if step == 1:
+            if mutation == "zero_col":
+                live["W"][:, idx] = 0.0
+            elif mutation == "zero_row":
+                live["W"][idx, :] = 0.0
+            elif mutation == "zero_b":
+                live["b"][...] = 0.0
+        elif step == 2:
+            if mutation in ("zero_col", "zero_row"):
+                live["W"][...] = W0
+            elif mutation == "zero_b":
+                live["b"][...] = b0
+        d = dict(case)
+        d["W"] = np.array(live["W"], dtype=float).copy()
+        d["b"] = np.array(live["b"], dtype=float).copy()
+        d["guess"] = guess_val.copy() if isinstance(guess_val, np.ndarray) else guess_val
+        d["maxit"] = rng.choice([1, 2, 3])
+        d["forms"] = dict(case["forms"])
+        if isinstance(guess_val, np.ndarray) and not isinstance(case["guess"], np.ndarray):
+            d["forms"]["guess"] = "F64"          # the array returned by the previous run
+        d["tags"] = (set(case["tags"]) - {"exact_solution_start", "default_max_iterations", "consistent"}) | {
+            "history_step%d" % step, "history_" + mutation}
+        d["derived"] = True
+        d["tie"] = "trace"
+        d.pop("impl", None)
+        live["guess"] = guess_obj
+        st, x, cs = run_sart_impl(inv, d, live=live)
+        d["expect_live"] = (st, None if x is None else x.copy(), cs)
+        derived.append(d)
+        if st != "ok":
+            # the failed call may or may not have touched the guess; continue from a defined state
+            guess_val = np.array(guess_obj, dtype=float).copy() if isinstance(guess_obj, np.ndarray) else guess_val
+            continue
+        guess_obj = x if not isinstance(guess_obj, np.ndarray) else guess_obj     # re-use what was returned
+        if not isinstance(live["guess"], np.ndarray):
+            guess_obj = x
+        guess_val = np.array(guess_obj, dtype=float).copy()
+    return derived
 
 
 class Recorder:
@@ -447,8 +564,42 @@ def run(ctx):
             n_nontrivial += 1
             distinct.add((kind, case["W"].tobytes(), case["b"].tobytes(), x0.tobytes(), case["maxit"], case["relax"], case["tol"]))
         case["impl"] = {"status": st, "sweeps": len(cs) if st == "ok" else None,
-                        "x": xs[-1].tolist() if (st == "ok" and xs) else None, "convs": cs}
+                        "x": xs[-1].tolist() if (st == "ok" and xs) else None, "convs": cs,
+                        "xs": [x.tolist() for x in xs] if st == "ok" else None}
         entries.append((e, case))
+        if case.get("expect_live") is not None:
+            lst, lx, lcs = case["expect_live"]
+            fx = xs[-1] if (st == "ok" and xs) else (x0 if st == "ok" else None)
+            # not bit for bit: NumPy sums / dots round differently for different strides of the same values
+            same = (lst == st)
+            if same and st == "ok":
+                sc = max(np.abs(fx).max(initial=0.0), np.abs(x0).max(initial=0.0), 1e-300)
+                same = lx.shape == fx.shape and np.abs(lx - fx).max(initial=0.0) <= 1e-10 * sc
+                margin = min([abs(abs(cs[k] - cs[k - 1]) - case["tol"]) for k in range(1, len(cs))] + [np.inf])
+                if same and len(lcs) != len(cs):
+                    same = margin < 1e-9
+                elif same and np.abs(fx).max(initial=0.0) > 1e-3 * sc:      # convergence values are well conditioned
+                    same = all(abs(a - c) <= 1e-9 * (2 + abs(c)) for a, c in zip(lcs, cs))
+            if not same:
+                viol.append(("c11:%s:history" % kind, "%s on re-used live objects (run %s of a sequence on the same arrays, inputs "
+                             "changed in place between runs) differs from the same call on freshly built objects"
+                             % (kind, sorted(t for t in case["tags"] if t.startswith("history"))),
+                             meta_of(case, {"live_status": lst, "live_x": None if lx is None else lx.tolist(), "live_convs": lcs})))
+        if not case.get("derived") and st == "ok" and "corpus" not in case["tags"]:
+            r = rng.random()
+            if r < 0.25 and case["n"] > 0:
+                sart_cases.extend(sart_history(inv, case, rng))
+            elif r < 0.5 and len(cs) >= 2 and case["maxit"] <= 14:
+                # EXACT BOUNDARY of the stopping comparison: conv_tol equal to an observed |c_k - c_(k-1)|, one ulp either side
+                k = rng.randrange(1, len(cs))
+                dlt = abs(cs[k] - cs[k - 1])
+                for t in rng.sample([dlt, float(np.nextafter(dlt, np.inf)), float(np.nextafter(dlt, -np.inf))], 2):
+                    if t < 0:
+                        continue
+                    d = dict(case, tol=t, derived=True, tie="trace", forms=dict(case["forms"], tol="SPyFloat"),
+                             tags=set(case["tags"]) | {"tol_boundary"})
+                    d.pop("impl", None)
+                    sart_cases.append(d)
 
     # ---- least-squares cases -------------------------------------------------------------------
     n_lsq = 64 if quick else 1200
@@ -458,23 +609,62 @@ def run(ctx):
     for case in lsq_cases:
         if "corpus" not in case["tags"]:
             F.assign_forms(rng, case)
+            if case["kind"] == "nnls" and rng.random() < 0.3:
+                case["solver_kwargs"] = {"maxiter": rng.choice([1000, 5000])}
+                case["tags"].add("solver_kwargs")
 
-    def call_lsq(case, recorder=None):
-        """one call of the real entry point with fresh objects in the case's forms;
+    def lsq_close(case, r1, r2):
+        """two results of the same entry point on the same values (different memory layouts): same objective and
+        reported residual up to rounding"""
+        kind = case["kind"]
+        n = case["n"]
+        Lm = np.identity(n) if (kind == "svd" or case.get("L") is None) else case["L"]
+        alpha = 0.0 if kind == "svd" else case["alpha"]
+        x1 = np.asarray(r1 if kind == "svd" else r1[0], dtype=float)
+        x2 = np.asarray(r2 if kind == "svd" else r2[0], dtype=float)
+        if x1.shape != x2.shape or not (finite(x1) and finite(x2)):
+            return False
+        tol = (1e-5 if case.get("single") else 1e-9)
+        sc = S.obj_scale(case["W"], case["b"], alpha, Lm, np.maximum(np.abs(x1), np.abs(x2)))
+        if abs(S.objective(case["W"], case["b"], alpha, Lm, x1) - S.objective(case["W"], case["b"], alpha, Lm, x2)) > tol * sc:
+            return False
+        if kind == "nnls":
+            return abs(float(r1[1]) ** 2 - float(r2[1]) ** 2) <= tol * sc
+        if kind == "lstsq":
+            a1, a2 = np.atleast_1d(np.asarray(r1[1], dtype=float)), np.atleast_1d(np.asarray(r2[1], dtype=float))
+            return a1.shape == a2.shape and bool(np.all(np.abs(a1 - a2) <= tol * sc))
+        return True
+
+    def call_lsq(case, recorder=None, live=None):
+        """one call of the real entry point with fresh objects in the case's forms (or the given live objects);
         returns ("ok", result) or ("exception", exception)"""
         _VARIANT[0] += 1
-        a = F.presented_args(case, _VARIANT[0])
+        a = live if live is not None else F.presented_args(case, _VARIANT[0])
         kind = case["kind"]
         target = {"nnls": (scipy.optimize, "nnls"), "lstsq": (np.linalg, "lstsq")}.get(kind)
         orig = getattr(*target) if (recorder and target) else None
         if orig is not None:
             setattr(target[0], target[1], recorder)
+        style = case.get("call", "mixed")
+        via = case.get("via_module")
         try:
+            if kind == "svd":
+                fn = svd_mod.invert_svd if via else inv.invert_svd
+                return "ok", F.call_with_style(fn, "positional" if style != "keywords" else "keywords",
+                                               ["w_matrix", "b_vector"], {"w_matrix": a["W"], "b_vector": a["b"]}, 2, {}, {})
             if kind == "nnls":
-                return "ok", nnls_mod.invert_regularised_nnls(a["W"], a["b"], alpha=a["alpha"], tikhonov_matrix=a["L"])
-            if kind == "lstsq":
-                return "ok", lstsq_mod.invert_regularised_lstsq(a["W"], a["b"], alpha=a["alpha"], tikhonov_matrix=a["L"])
-            return "ok", svd_mod.invert_svd(a["W"], a["b"])
+                fn = nnls_mod.invert_regularised_nnls if via else inv.invert_regularised_nnls
+            else:
+                fn = lstsq_mod.invert_regularised_lstsq if via else inv.invert_regularised_lstsq
+            values = {"w_matrix": a["W"], "b_vector": a["b"], "alpha": a["alpha"], "tikhonov_matrix": a["L"]}
+            plain = {"alpha": case["alpha"], "tikhonov_matrix": case["L"]}
+            extra = case.get("solver_kwargs") or {}
+            if extra:      # keyword arguments that invert_regularised_nnls documents as passed on to scipy.optimize.nnls
+                fn = (lambda f: (lambda *p, **k: f(*p, **dict(k, **extra))))(fn)
+                if style == "positional":
+                    style = "mixed"
+            return "ok", F.call_with_style(fn, style, ["w_matrix", "b_vector", "alpha", "tikhonov_matrix"], values, 2,
+                                           F.LSQ_DEFAULTS, plain)
         except Exception as ex:     # not swallowed: compared with the policy table / error model, reported with its input
             return "exception", ex
         finally:
@@ -522,6 +712,9 @@ def run(ctx):
         n_nontrivial += 1
         distinct.add((kind, W.tobytes(), b.tobytes(), case.get("alpha"), None if case.get("L") is None else case["L"].tobytes()))
         if value_error:
+            if case.get("expect_live") is not None and case["expect_live"][0] != "exception":
+                viol.append(("c11:nnls:history", "nnls on re-used live objects with b zeroed in place returned a result although a "
+                             "fresh call raises ValueError", meta_of(case)))
             case["impl"] = {"status": "valueerror", "message": str(out)}
             entries.append(("check_nnls_error %d %s" % (n, bn), dict(case, tie="certificate")))
             count("tie", "certificate")
@@ -537,6 +730,10 @@ def run(ctx):
                              "recording stub (%s)" % (kind, out_r), meta_of(case)))
                 continue
             xr, rr = out_r
+            if kind == "nnls" and (rec.kwargs or {}) != (case.get("solver_kwargs") or {}):
+                viol.append(("c11:nnls:kwargs", "invert_regularised_nnls did not pass its keyword arguments on to the solver "
+                             "(got %s)" % (rec.kwargs,), meta_of(case)))
+                continue
             if not finite(rec.args[0], rec.args[1]):
                 viol.append(("c11:%s:nonfinite-system" % kind, "invert_regularised_%s handed a non-finite system to the solver "
                              "although max(b) > 0" % kind, meta_of(case)))
@@ -583,6 +780,36 @@ def run(ctx):
             e = "check_svd_out %s %s %s %s" % (single, Wn, bn, qlist(np.asarray(x, dtype=float).tolist()))
         entries.append((e, dict(case, tie="certificate")))
         count("tie", "certificate")
+        # HISTORY ON LIVE OBJECTS: the same W, b, L objects used for three successive calls; b is set to zero IN PLACE
+        # between the first and second call (max(b) > 0 -> 0: the normalisation guard) and restored before the third
+        if case.get("expect_live") is not None:
+            lst, lout = case["expect_live"]
+            ok_same = lst == st and (st != "ok" or lsq_close(case, lout, out))
+            if not ok_same:
+                viol.append(("c11:%s:history" % kind, "%s on re-used live objects (b changed in place between calls) differs from the "
+                             "same call on freshly built objects" % kind, meta_of(case, {"live": str(lout)[:400]})))
+        if not case.get("derived") and "corpus" not in case["tags"] and rng.random() < 0.3 and m > 0:
+            live = F.presented_args(case, 0)
+            with warnings.catch_warnings():
+                warnings.simplefilter("ignore")
+                st1, out1 = call_lsq(case, live=live)
+                writable = isinstance(live["b"], np.ndarray) and live["b"].flags.writeable
+                if writable:
+                    keep = np.array(live["b"]).copy()
+                    live["b"][...] = 0
+                st2, out2 = call_lsq(case, live=live)
+                if writable:
+                    d = dict(case, b=np.zeros(m), derived=True, tags=set(case["tags"]) | {"history_zero_b"},
+                             expect_live=(st2, out2))
+                    d.pop("impl", None)
+                    lsq_cases.append(d)
+                    live["b"][...] = keep
+                st3, out3 = call_lsq(case, live=live)
+            count("tags", "lsq_history")
+            if not (st1 == "ok" and st3 == "ok" and lsq_close(case, out1, out) and lsq_close(case, out3, out)):
+                viol.append(("c11:%s:history" % kind, "%s: first / third call on the same live objects (b zeroed in place and restored "
+                             "in between) differs from a call on freshly built objects" % kind,
+                             meta_of(case, {"first": str(out1)[:300], "third": str(out3)[:300]})))
 
     ctx.log("implementation runs done: %d entries" % len(entries))
     # ---- write case files and run them in Coq -----------------------------------------------------
@@ -664,7 +891,7 @@ def run(ctx):
         "search_checks": n_search,
         "tolerance": {"sart_sweep": "2^-40 x magnitude of the terms of the cell update (exact rational model vs double)",
                       "sart_whole_run": "2^-30 x max|x|; convergence values 2^-30 x (1+|c|)",
-                      "stop_decision_margin": "2^-30 absolute on | |c_k - c_(k-1)| - tol |",
+                      "stop_decision_margin": "2^-30 x (1 + |c_k| + |c_(k-1)|) on | |c_k - c_(k-1)| - tol | (ambiguous cases are decided exactly by replaying the rule on the implementation's own convergence values)",
                       "wrapper_system": "2^-50 relative per entry (one division / multiplication in double)",
                       "certificates": "eps = 2^-30 x rounding-error scale (max_j sum_i |C_ij| x max_i (|C||x| + |d|)_i for the gradient, "
                                       "|(|C||x| + |d|)|^2 for the objective); invert_svd: 2^-26 (explicit pseudo-inverse: eps x cond(W), "
